@@ -101,6 +101,8 @@ def call(key, args):
 
     random.seed(0)
     stack, exc, _ = sandbox.apply_element(key, vals, timeout=3.0)
+    if isinstance(exc, sandbox.CaseTimeout):
+        return ("timeout", "no result within the backstop")
     if exc is not None:
         return ("raise", type(exc).__name__)
     if not stack:
@@ -125,6 +127,9 @@ def scalar(key, args):
     if k not in _SCALAR_CACHE:
         _SCALAR_CACHE[k] = call(key, list(args))
     r = _SCALAR_CACHE[k]
+    if r[0] == "timeout":
+        del _SCALAR_CACHE[k]
+        raise sandbox.CaseTimeout()
     if r[0] != "ok":
         raise OutOfDomain(r[1])
     return r[1]
@@ -219,6 +224,9 @@ def check(part, key, args, shape, form):
         return
     part.count()
     got = call(key, a2)
+    if got[0] == "timeout":
+        part.cap("backstop hit (slow is not wrong): %s %s" % (key, shape))
+        return
     part.outcome((key, shape, repr(want)[:16]))
     if got[0] == "ok":
         got = ("ok", nofloat(got[1]))
